@@ -98,6 +98,10 @@ class AnnotationDAGBuilder:
         inputs = []
         for name, annotation in node.__annotations__.items():
 
+            if name == 'return':
+                # The annotation of the result is not a parameter
+                continue
+
             if isinstance(annotation, (InputGenericMark, GenericInputMark)):
                 raise errors.NonRedefinedGenericTypeError(
                     f'Для использования узлов общего назначения необходимо их переопределение для целевого графа. '
